@@ -46,10 +46,11 @@ class KgenRun:
                 continue
             r = json.loads(p.stdout.strip().split('\n')[-1])
             self.native_stats[n] = r
-            if r['model_mismatches']:
-                bad_model.append((n, r['first']))
-            elif r['real_not_ok']:
+            # a native verdict other than Ok is a violation seen on the real code, whatever the harness model says about it
+            if r['real_not_ok']:
                 real_bad.append((n, r['first']))
+            elif r['model_mismatches']:
+                bad_model.append((n, r['first']))
         return bad_model, real_bad
 
     def native_replay(self, native_name, playback):
